@@ -11,7 +11,9 @@ ORACLE         (NOT proved - statements about the Python heap and about floating
                for every public numeric entry point: identical results across the layouts its contract accepts,
                an exception for multi-column input to the single-signal sift routines and for mismatched lengths,
                byte-identical arrays and option dictionaries after every call, read-only inputs accepted,
-               a repeated deterministic call byte-identical
+               a repeated deterministic call byte-identical; the accepted layouts also compared under non-default option
+               sets (energy_thresh x stop method, pad_width, parabolic_extrema, interpolation / transform methods),
+               every returned component (arrays, flags, tuples)
 """
 import copy
 import itertools
@@ -854,6 +856,172 @@ def check_option_reuse(ctx, k, n, report=True):
     return fails
 
 
+
+# ------------------------------------------------------------------ layouts x non-default options
+def clean_signals(k, n=128):
+    """A pure sinusoid plus a small trend: the first IMF takes (nearly) all the energy, so the energy-ratio stop of
+    get_next_imf decides the continue flag.  Energy ratios of roughly 75, 40 and 5 dB: both outcomes of the flag occur
+    for the thresholds 1, 20, 50."""
+    t = np.arange(n, dtype=float)
+    per = 12.5 + (k % 7)
+    return [('sin+1e-4t', np.sin(2 * np.pi * t / per) + 1e-4 * t),
+            ('sin+1e-3t', np.sin(2 * np.pi * t / (per + 3.5)) + 1e-3 * t),
+            ('sin+1e-2t', np.sin(2 * np.pi * t / (per + 3.5)) + 1e-2 * t)]
+
+
+def option_cases(k, quick=True):
+    """[(case id, site, signal, layouts, call(X), tag)]: entry points that take options, under non-default option sets,
+    on signals for which the option matters.  Every component of the result is compared across the layouts."""
+    from emd import sift, spectra
+    C = []
+    S3 = ('n1', 'n', 'n11')
+    S2 = ('n1', 'n')
+    clean = clean_signals(k)
+    comp = base_signal(k, 128)
+    ext_par = {'pad_width': 2, 'parabolic_extrema': True, 'loc_pad_opts': None, 'mag_pad_opts': None}
+    stops = [('sd', {}), ('rilling', {}), ('fixed', {'max_iters': 3})]
+    # get_next_imf: energy_thresh x stop method on the clean signals; other options on the composite signal
+    for sname, x in clean:
+        for et in (1, 20, 50):
+            for sm, extra in stops:
+                kw = dict(energy_thresh=et, stop_method=sm, **extra)
+                C.append(('get_next_imf|%s|energy_thresh=%s,stop_method=%s' % (sname, et, sm), 'get_next_imf', x, S3,
+                          (lambda kw: lambda X: sift.get_next_imf(X, **kw))(kw), 'energy'))
+    for kw in (dict(env_step_size=0.5), dict(sd_thresh=0.02), dict(stop_method='rilling', rilling_thresh=(0.1, 0.6, 0.1)),
+               dict(stop_method='fixed', max_iters=5, energy_thresh=20), dict(envelope_opts={'interp_method': 'pchip'}, energy_thresh=10),
+               dict(extrema_opts=dict(ext_par), energy_thresh=30), dict(envelope_opts={'interp_method': 'mono_pchip'}, extrema_opts={'pad_width': 4})):
+        C.append(('get_next_imf|composite|%s' % describe(kw), 'get_next_imf', comp, S3,
+                  (lambda kw: lambda X: sift.get_next_imf(X, **kw))(kw), 'opts'))
+    # sift / mask_sift / get_next_imf_mask / ensembles with imf_opts carrying energy_thresh
+    for sname, x in clean + [('composite', comp)]:
+        for et in (1, 20, 50):
+            io = {'energy_thresh': et, 'sd_thresh': .1, 'env_step_size': 1}
+            C.append(('sift|%s|imf_opts.energy_thresh=%s' % (sname, et), 'sift', x, S3,
+                      (lambda io: lambda X: sift.sift(X, max_imfs=4, imf_opts=dict(io)))(io), 'energy'))
+        io = {'energy_thresh': 20, 'stop_method': 'rilling'}
+        C.append(('mask_sift|%s|imf_opts.energy_thresh=20,rilling,mask_freqs=0.2,ratio_sig' % sname, 'mask_sift', x, S3,
+                  (lambda io: lambda X: sift.mask_sift(X, max_imfs=3, mask_freqs=0.2, mask_amp_mode='ratio_sig', nphases=2,
+                                                       ret_mask_freq=True, imf_opts=dict(io)))(io), 'energy'))
+        C.append(('mask_sift|%s|imf_opts.energy_thresh=50,zc' % sname, 'mask_sift', x, S3,
+                  lambda X: sift.mask_sift(X, max_imfs=3, imf_opts={'energy_thresh': 50}), 'energy'))
+        C.append(('get_next_imf_mask|%s|imf_opts.energy_thresh=20,nphases=3' % sname, 'get_next_imf_mask', x, S3,
+                  lambda X: sift.get_next_imf_mask(X, 0.11, 0.5, nphases=3, imf_opts={'energy_thresh': 20}), 'energy'))
+    for sname, x in [clean[0], clean[1], ('composite', comp)] if not quick else [clean[1], ('composite', comp)]:
+        C.append(('ensemble_sift|%s|imf_opts.energy_thresh=20,flip' % sname, 'ensemble_sift', x, S3,
+                  seeded(lambda X: sift.ensemble_sift(X, nensembles=2, max_imfs=2, nprocesses=1, noise_mode='flip', ensemble_noise=1e-3,
+                                                      imf_opts={'energy_thresh': 20})), 'energy'))
+        C.append(('complete_ensemble_sift|%s|imf_opts.energy_thresh=20' % sname, 'complete_ensemble_sift', x, S3,
+                  seeded(lambda X: sift.complete_ensemble_sift(X, nensembles=2, max_imfs=2, nprocesses=1, ensemble_noise=1e-3,
+                                                               imf_opts={'energy_thresh': 20})), 'energy'))
+    for sname, x in [('composite', comp)]:
+        C.append(('sift|composite|sift_thresh=1e-2,pchip,parabolic', 'sift', x, S3,
+                  lambda X: sift.sift(X, sift_thresh=1e-2, envelope_opts={'interp_method': 'pchip'}, extrema_opts=dict(ext_par),
+                                      imf_opts={'stop_method': 'fixed', 'max_iters': 4, 'energy_thresh': 40}), 'opts'))
+        for mode in ('zc', 'if', 0.2):
+            C.append(('get_mask_freqs|composite|%s,energy_thresh=20' % mode, 'get_mask_freqs', x, S2,
+                      (lambda mode: lambda X: sift.get_mask_freqs(X, mode, imf_opts={'energy_thresh': 20}))(mode), 'opts'))
+        # envelopes / extrema: pad_width and parabolic_extrema
+        for mode in ('upper', 'lower', 'combined'):
+            for meth in ('splrep', 'pchip', 'mono_pchip'):
+                for eo in ({'pad_width': 1}, {'pad_width': 4, 'parabolic_extrema': True}, dict(ext_par)):
+                    C.append(('interp_envelope|composite|%s,%s,%s' % (mode, meth, describe(eo)), 'interp_envelope', x, S2,
+                              (lambda mode, meth, eo: lambda X: sift.interp_envelope(X, mode=mode, interp_method=meth, extrema_opts=dict(eo),
+                                                                                    ret_extrema=True))(mode, meth, eo), 'opts'))
+        for mode in ('peaks', 'troughs', 'abs_peaks'):
+            for pw in (0, 1, 4):
+                for par in (False, True):
+                    C.append(('get_padded_extrema|composite|%s,pad_width=%d,parabolic=%s' % (mode, pw, par), 'get_padded_extrema', x, S2,
+                              (lambda mode, pw, par: lambda X: sift.get_padded_extrema(X, pad_width=pw, mode=mode, parabolic_extrema=par,
+                                                                                      mag_pad_opts={'mode': 'edge'}))(mode, pw, par), 'opts'))
+        for meth in ('hilbert', 'nht', 'quad'):
+            for sp in (3, 9):
+                C.append(('frequency_transform|composite|%s,smooth_phase=%d,sample_rate=250' % (meth, sp), 'frequency_transform', x, S2,
+                          (lambda meth, sp: lambda X: spectra.frequency_transform(X, 250, meth, smooth_phase=sp))(meth, sp), 'opts'))
+    return C
+
+
+def components(r, path='result'):
+    """Flatten a result into [(path, canonical value, short text)] so the differing component can be named."""
+    if isinstance(r, (tuple, list)):
+        out = []
+        for i, v in enumerate(r):
+            out += components(v, '%s[%d]' % (path, i))
+        return out or [(path, ('empty',), '()')]
+    return [(path, canon(r), result_summary(r) if hasattr(r, 'shape') and getattr(r, 'ndim', 0) > 0 else repr(r))]
+
+
+def run_option_case(case):
+    """-> {layout: ('ok', components) | ('raised', text) | ('timeout', text)}"""
+    quiet()
+    cid, site, x, layouts, call, tag = case
+    res = {}
+    for v in layouts:
+        X = lay(x, v)
+        try:
+            with common.time_limit(30):
+                r = call(X)
+            res[v] = ('ok', components(r))
+        except common.Timeout:
+            res[v] = ('timeout', 'still computing after 30 s')
+        except Exception as e:
+            res[v] = ('raised', '%s: %s' % (type(e).__name__, str(e)[:120]))
+    return res
+
+
+def option_case_failure(case, res):
+    """None, or the first difference between the documented layout (n,1) and another accepted layout."""
+    cid, site, x, layouts, call, tag = case
+    ref_v = layouts[0]
+    ref = res[ref_v]
+    for v in layouts[1:]:
+        r = res[v]
+        if ref[0] != 'ok' or r[0] != 'ok':
+            if ref[0] == r[0] == 'raised' and ref[1].split(':')[0] == r[1].split(':')[0]:
+                continue                                  # same refusal in both layouts: nothing layout-dependent
+            return v, 'layout %r: %s, layout %r: %s' % (ref_v, ref[1] if ref[0] != 'ok' else 'returns', v, r[1] if r[0] != 'ok' else 'returns')
+        if len(ref[1]) != len(r[1]):
+            return v, 'layout %r returns %d components, layout %r returns %d' % (ref_v, len(ref[1]), v, len(r[1]))
+        for (pa, ca, ta), (pb, cb, tb) in zip(ref[1], r[1]):
+            if pa != pb or ca != cb:
+                return v, '%s differs between layouts: %r gives %s, %r gives %s' % (pa, ref_v, ta, v, tb)
+    return None
+
+
+def check_option_layouts(ctx, k, report=True, only=None):
+    fails = []
+    flags = {True: 0, False: 0}
+    for case in option_cases(k, ctx_quick(ctx)):
+        cid, site, x, layouts, call, tag = case
+        if only is not None and cid != only:
+            continue
+        res = run_option_case(case)
+        ref = res[layouts[0]]
+        # non-vacuity of the energy cases: the continue flag of the (n,1) layout
+        if site == 'get_next_imf' and tag == 'energy' and ref[0] == 'ok':
+            flags[ref[1][1][2] in ('True', 'np.True_')] += 1
+        for v in layouts:
+            ctx.count(('optlayout', k, cid, v), True, 'option-layout:%s:%s' % (site, tag))
+        ctx.exact_cmp += len(layouts) - 1
+        f = option_case_failure(case, res)
+        if f:
+            fails.append((cid, f[0], f[1]))
+            if report:
+                ctx.problem('impl-violation', site, 'with options [%s]: %s' % (cid.split('|', 1)[1], f[1]),
+                            input=dict(check='option-layout', case=cid, signal=k, layout=f[0]),
+                            observed=f[1], expected='identical results (every component) for (n,), (n,1), (n,1,1)',
+                            tags=dict(check='option-layout', site=site))
+    if only is None and report:
+        ctx.extra.setdefault('energy_flag_cases', []).append(dict(signal=k, flag_False=flags[False], flag_True=flags[True]))
+        if flags[False] == 0 or flags[True] == 0:
+            ctx.notes.append('signal family %d: the energy-ratio cases of get_next_imf did not produce both flag values in the (n,1) layout '
+                             '(False %d, True %d) - those cases are vacuous for the flag' % (k, flags[False], flags[True]))
+    return fails
+
+
+def ctx_quick(ctx):
+    return ctx.quick() if hasattr(ctx, 'quick') else False      # replay: the larger case list
+
+
 # ------------------------------------------------------------------ check
 def run(ctx):
     quiet()
@@ -868,7 +1036,11 @@ def run(ctx):
                 'emd.spectra, emd.cycles, emd.utils on %d signal(s) of 64..256 samples (quick: %d): identical bytes across the layouts its contract accepts, '
                 'an exception for (n,2), (1,n), (n,2,3) input to the six single-signal sift routines and for mismatched lengths in multi-array '
                 'routines, arrays and option dictionaries byte-identical (type-sensitive: tuple != list) after every call, read-only arrays '
-                'accepted with the same result, repeated call byte-identical (ensemble variants: np.random seeded identically, nprocesses=1).  '
+                'accepted with the same result, repeated call byte-identical (ensemble variants: np.random seeded identically, nprocesses=1); '
+                'layouts (n,), (n,1), (n,1,1) also compared component by component (arrays, flags, tuples) under non-default options: get_next_imf '
+                'energy_thresh {1,20,50} x stop method {sd,rilling,fixed} on sinusoid+trend signals where the energy stop decides the flag (both '
+                'outcomes occur), sift/mask_sift/get_next_imf_mask/ensembles with imf_opts.energy_thresh, interp_envelope/get_padded_extrema with '
+                'pad_width/parabolic_extrema/pad modes, frequency_transform methods x smooth_phase.  '
                 'non-trivial = rank >= 2 shape / unequal shapes / any entry-point call' % (len(sigs), n))
     ctx.notes.append('non-mutation, read-only tolerance and determinism are ORACLE-ONLY clauses: observed on the inputs of this run, not proved')
     ctx.notes.append('energy_stop/_energy_difference read uninitialised memory when an energy is exactly zero (np.log10(where=) without out); the '
@@ -884,6 +1056,10 @@ def run(ctx):
         for e in ents:
             check_entry(ctx, e, k, nk)
         check_option_reuse(ctx, k, nk)
+    for k in sorted(set(k for k, _ in sigs))[:1 if ctx.quick() else 4]:
+        check_option_layouts(ctx, k)
+    ctx.sample(dict(entry='get_next_imf', signal='sin + 1e-3 t (128 samples)', options=dict(energy_thresh=20, stop_method='rilling'),
+                    layouts=['(128,1)', '(128,)', '(128,1,1)'], compared='IMF bytes and continue flag'))
     ctx.sample(dict(entry='sift', layouts=['(128,)', '(128,1)', '(128,1,1)', '(128,1,1,1)'], rejected=['(128,2)', '(1,128)', '(128,2,3)'], signal=0))
     ctx.sample(dict(entry='hilberthuang', layouts=['vector', 'column', 'mixed'], mismatched=['inam one sample short', '2-d infr three samples short']))
     have = any(p['kind'] == 'impl-violation' for p in ctx.problems)
@@ -922,6 +1098,10 @@ def replay(rec):
         out = impl_validate(i['which'], i['a'], i['b'])
         print('validate', i, '->', out)
         return out[0] > 0 if i['a'][0] != i['b'][0] else out == rec.get('observed')
+    if i['check'] == 'option-layout':
+        f = check_option_layouts(ctx, i['signal'], report=False, only=i['case'])
+        print(f)
+        return bool(f)
     if i['check'].startswith('options'):
         f = check_option_reuse(ctx, i['signal'], i['n'], report=False)
         hit = [x for x in f if x[0] == i['entry'] and x[1] == i['check']]
